@@ -205,7 +205,7 @@ PROPERTIES["C06"] = {"run": _c06, "assumptions": ["two connection paths between 
 
 PROPERTIES["C03"] = {"run": _sched(_c03_monitor, extra=_c03_replays), "assumptions": SCHED_ASSUME + [
     "at most one connection per (source entity, destination entity, destination attribute)",
-    "the refinement of whole runs to the history specification is decided by the specification monitor on implementation traces, not by a theorem; five classes of scenarios are known findings (known_findings.json)"]}
+    "the refinement of whole runs to the history specification is decided by the specification monitor on implementation traces, not by a theorem; four classes of scenarios are known findings (known_findings.json)"]}
 
 
 def _c16_monitor(sc, c, outcome):
